@@ -27,6 +27,9 @@ Proof. reflexivity. Qed.
 Example C13_example : from_input (mkEnv RIo (TFail 3) (mkCfg false false false false)) [91; 49; 44]%N = Err (Io 3) 0.
 Proof. vm_compute. reflexivity. Qed.
 
+(* writer half: pinned in Properties/C13w.v (C13_buf_utf8, C13_write_prefix, C13_no_fault) *)
+From SJ Require Properties.C13w.
+
 Print Assumptions C13_read.
 Print Assumptions C13_read_ignored.
 Print Assumptions C13_never_a_value.
